@@ -7,7 +7,7 @@
 EXTENDS TraceKit, FetchesContract
 
 PeerIds == 1..8
-ChunkIds == 1..16
+ChunkIds == 1..8
 NoReq == [peer |-> 0, t |-> 0]
 
 VARIABLES l, viol, poisoned,
